@@ -678,7 +678,7 @@ theorem rename_refines_aux (old new : Path) (safe : Bool) (kids : Kids) (hw : WF
     (renameKey old new safe (.node kids)).2.erase = (specRename old new safe (.node kids)).2.erase := by
   unfold renameKey specRename
   by_cases h0 : old = [] ∨ new = []
-  · simp [h0]
+  · simp [h0, Out.erase]
   · simp only [h0, if_false]
     have ho : old ≠ [] := fun e => h0 (Or.inl e)
     have hn : new ≠ [] := fun e => h0 (Or.inr e)
@@ -929,6 +929,1147 @@ theorem mem_kids_iff_dget {k : String} {e : Entry} {kids : Kids} (hn : (kids.map
         · simp at h'; exact absurd h'.1.symm h
         · exact h'
       · intro h'; exact Or.inr h'
+
+
+/-! ### flatten_keys -/
+
+theorem mem_dedup (l : List String) (x : String) : x ∈ dedup l ↔ x ∈ l := by
+  induction l with
+  | nil => simp [dedup]
+  | cons a r ih =>
+    simp only [dedup]
+    split
+    · rename_i h
+      have ha : a ∈ dedup r := by simpa using h
+      rw [ih, List.mem_cons]
+      constructor
+      · intro h'; exact Or.inr h'
+      · intro h'
+        rcases h' with rfl | h'
+        · exact ih.mp ha
+        · exact h'
+    · simp [ih]
+
+theorem dedup_length_le (l : List String) : (dedup l).length ≤ l.length := by
+  induction l with
+  | nil => simp [dedup]
+  | cons a r ih => simp only [dedup]; split <;> simp <;> omega
+
+theorem dedup_length_eq_iff (l : List String) : (dedup l).length = l.length ↔ l.Nodup := by
+  induction l with
+  | nil => simp [dedup]
+  | cons a r ih =>
+    simp only [dedup, List.nodup_cons]
+    split
+    · rename_i h
+      have ha : a ∈ r := (mem_dedup r a).mp (by simpa using h)
+      have := dedup_length_le r
+      constructor
+      · intro h'; simp at h'; omega
+      · intro h'; exact absurd ha h'.1
+    · rename_i h
+      have ha : a ∉ r := fun hm => h (by simpa using (mem_dedup r a).mpr hm)
+      simp [ih, ha]
+
+/-- `len(set(names)) < len(names)` is exactly "some name occurs twice" -/
+theorem dedup_lt_iff (l : List String) : (dedup l).length < l.length ↔ ¬ l.Nodup := by
+  rw [← dedup_length_eq_iff]; have := dedup_length_le l; omega
+
+theorem dset_fresh (k : String) (v : Entry) (acc : Kids) (hk : k ∉ acc.map (·.1)) : dset k v acc = acc ++ [(k, v)] := by
+  induction acc with
+  | nil => simp [dset]
+  | cons b acc' ih' =>
+    obtain ⟨k', v'⟩ := b
+    simp only [List.map_cons, List.mem_cons, not_or] at hk
+    have hne : ¬ k' = k := fun e => hk.1 e.symm
+    simp [dset, hne, ih' hk.2]
+
+theorem foldl_dset_append (l acc : Kids) (h1 : (l.map (·.1)).Nodup) (h2 : ∀ k, k ∈ l.map (·.1) → k ∉ acc.map (·.1)) :
+    l.foldl (fun d kv => dset kv.1 kv.2 d) acc = acc ++ l := by
+  induction l generalizing acc with
+  | nil => simp
+  | cons a r ih =>
+    obtain ⟨k, v⟩ := a
+    simp only [List.foldl_cons]
+    rw [dset_fresh k v acc (h2 k (by simp))]
+    simp only [List.map_cons, List.nodup_cons] at h1
+    rw [ih (acc ++ [(k, v)]) h1.2]
+    · simp
+    · intro k' hk' hm
+      simp only [List.map_append, List.map_cons, List.map_nil, List.mem_append, List.mem_singleton] at hm
+      rcases hm with hm | hm
+      · exact h2 k' (by simp only [List.map_cons, List.mem_cons]; exact Or.inr hk') hm
+      · subst hm; exact h1.1 hk'
+
+theorem dictBuild_nodup (l : Kids) (h : (l.map (·.1)).Nodup) : dictBuild l = l := by
+  have := foldl_dset_append l [] h (by simp)
+  simpa [dictBuild] using this
+
+
+
+theorem flatKids_keys (sep : String) (t : Entry) : (flatKids sep t).map (·.1) = flatNames sep t := by
+  simp [flatKids, flatNames]
+
+theorem zip_flat (sep : String) (t : Entry) :
+    (flatNames sep t).zip ((leavesOf t).map (·.2)) = flatKids sep t := by
+  simp only [flatNames, flatKids]
+  induction leavesOf t with
+  | nil => simp
+  | cons a r ih => simp [ih]
+
+/-- `flatten_keys` (out of place): a clash of flat names raises, otherwise the result is exactly the dict of the
+leaves under their joined names, in items() order -/
+theorem flattenOut_eq (sep : String) (t : Entry) :
+    flattenOut sep t = if (flatNames sep t).Nodup then .ok (.node (flatKids sep t)) else .error .key := by
+  unfold flattenOut
+  simp only []
+  have hz := zip_flat sep t
+  simp only [flatNames] at hz
+  by_cases hn : (flatNames sep t).Nodup
+  · have hlt : ¬ (dedup (flatNames sep t)).length < (flatNames sep t).length := by
+      rw [dedup_lt_iff]; simpa using hn
+    rw [if_pos hn]
+    simp only [flatNames] at hlt
+    rw [if_neg hlt, hz]
+    rw [dictBuild_nodup _ (by rw [flatKids_keys]; exact hn)]
+  · have hlt : (dedup (flatNames sep t)).length < (flatNames sep t).length := by
+      rw [dedup_lt_iff]; exact hn
+    rw [if_neg hn]
+    simp only [flatNames] at hlt
+    rw [if_pos hlt]
+
+/-- the leaves `flatten_keys` moves: exactly the bound paths that hold a tensor or a non-tensor -/
+theorem mem_leavesOf (kids : Kids) (hw : WF (.node kids)) (p : Path) (e : Entry) :
+    (p, e) ∈ leavesOf (.node kids) ↔ bound p e kids ∧ e.isLeafFor true = true := by
+  have h := mem_iterItems_go true true kids [] p e hw
+  simp only [List.nil_append, Bool.not_true, Bool.false_or] at h
+  simp only [leavesOf, iterItems]; rw [h]
+  constructor
+  · rintro ⟨q, rfl, hb⟩; exact hb
+  · intro hb; exact ⟨p, rfl, hb⟩
+
+
+/-! ### unflatten_keys -/
+
+theorem insert_shape {p : Path} {v t t' : Entry} (h : insert p v t = some t') : ∃ kids', t' = .node kids' := by
+  match p, t, h with
+  | [k], .node kids, h => simp [insert] at h; exact ⟨_, h.symm⟩
+  | k :: k2 :: r, .node kids, h =>
+    simp only [insert] at h
+    split at h <;> simp at h
+    all_goals (obtain ⟨a, _, rfl⟩ := h; exact ⟨_, rfl⟩)
+
+/-- the replay of `rename_key_` keeps a well-formed node -/
+theorem specRename_good (old new : Path) (safe : Bool) (kids : Kids) (hw : WF (.node kids)) :
+    ∃ kids', (specRename old new safe (.node kids)).1 = .node kids' ∧ WF (.node kids') := by
+  simp only [specRename]
+  split
+  · exact ⟨kids, rfl, hw⟩
+  · split
+    · exact ⟨kids, rfl, hw⟩
+    · rename_i v hl
+      split
+      · exact ⟨kids, rfl, hw⟩
+      · split
+        · exact ⟨kids, rfl, hw⟩
+        · split
+          · exact ⟨kids, rfl, hw⟩
+          · rename_i t1 hr
+            obtain ⟨_, k1, _, rfl⟩ := remove_shape hr
+            have hw1 := wf_remove old _ _ hw hr
+            have hwv := wf_lookup old _ v hw hl
+            split
+            · exact ⟨kids, rfl, hw⟩
+            · rename_i t2 hi
+              obtain ⟨k2, rfl⟩ := insert_shape hi
+              exact ⟨k2, rfl, wf_insert new v _ _ hw1 hwv hi⟩
+
+/-- `unflatten_keys`: the loop of safe renames over the root keys equals the replay on the dict -/
+theorem unflattenLoop_refines (sep : Char) (ks : List String) (kids : Kids) (hw : WF (.node kids)) :
+    (unflattenLoop sep ks (.node kids)).1 = (specUnflattenLoop sep ks (.node kids)).1 ∧
+    (unflattenLoop sep ks (.node kids)).2.erase = (specUnflattenLoop sep ks (.node kids)).2.erase := by
+  induction ks generalizing kids with
+  | nil => simp [unflattenLoop, specUnflattenLoop]
+  | cons k ks ih =>
+    simp only [unflattenLoop, specUnflattenLoop]
+    split
+    · have hr := rename_refines_aux [k] (splitKey sep k) true kids hw
+      obtain ⟨kids', hk', hw'⟩ := specRename_good [k] (splitKey sep k) true kids hw
+      cases h1 : renameKey [k] (splitKey sep k) true (.node kids) with
+      | mk t1 o1 =>
+        cases h2 : specRename [k] (splitKey sep k) true (.node kids) with
+        | mk t2 o2 =>
+          rw [h1, h2] at hr
+          rw [h2] at hk'
+          simp only at hr hk'
+          obtain ⟨hs, ho⟩ := hr
+          subst hs; subst hk'
+          cases o1 <;> cases o2 <;> simp [Out.erase] at ho ⊢
+          all_goals (first | exact ih kids' hw' | skip)
+    · exact ih kids hw
+
+
+theorem specUnflattenLoop_good (sep : Char) (ks : List String) (kids : Kids) (hw : WF (.node kids)) :
+    ∃ kids', (specUnflattenLoop sep ks (.node kids)).1 = .node kids' ∧ WF (.node kids') := by
+  induction ks generalizing kids with
+  | nil => exact ⟨kids, rfl, hw⟩
+  | cons k ks ih =>
+    simp only [specUnflattenLoop]
+    split
+    · obtain ⟨kids', hk', hw'⟩ := specRename_good [k] (splitKey sep k) true kids hw
+      cases h2 : specRename [k] (splitKey sep k) true (.node kids) with
+      | mk t2 o2 =>
+        rw [h2] at hk'; simp only at hk'; subst hk'
+        cases o2 <;> simp
+        all_goals (first | exact ih kids' hw' | exact ⟨kids', rfl, hw'⟩ | exact hw')
+    · exact ih kids hw
+
+/-! ### exclude -/
+
+/-- `sx` on one entry -/
+def sxE (keys : List Path) : Entry → Entry
+  | .node sub => .node (sx keys sub)
+  | .leaf nt v => .leaf nt v
+
+theorem sx_cons_hit {keys : List Path} {k : String} (e : Entry) (r : Kids) (h : keys.contains [k] = true) :
+    sx keys ((k, e) :: r) = sx keys r := by
+  have h' : [k] ∈ keys := by simpa using h
+  cases e <;> simp [sx, h']
+
+theorem sx_cons_miss {keys : List Path} {k : String} (e : Entry) (r : Kids) (h : keys.contains [k] = false) :
+    sx keys ((k, e) :: r) = (k, sxE (tailsOf k keys) e) :: sx keys r := by
+  have h' : ¬ [k] ∈ keys := by simpa using h
+  cases e <;> simp [sx, h', sxE]
+
+theorem sx_nil_aux (keys : List Path) (kids : Kids) (h : keys = []) : sx keys kids = kids := by
+  fun_induction sx keys kids
+  · rfl
+  · subst h; rename_i hc _; simp at hc
+  · subst h
+    rename_i k e r hc ih2 ih1
+    rw [ih1 rfl]
+    cases e with
+    | leaf nt v => rfl
+    | node sub => simp only at ih2 ⊢; rw [ih2 (by simp [tailsOf])]
+
+theorem sx_nil (kids : Kids) : sx [] kids = kids := sx_nil_aux [] kids rfl
+
+theorem sxE_nil (e : Entry) : sxE [] e = e := by cases e <;> simp [sxE, sx_nil]
+
+theorem tailsOf_single_same (k k2 : String) (rest : Path) : tailsOf k [k :: k2 :: rest] = [k2 :: rest] := by
+  simp [tailsOf]
+
+theorem tailsOf_single_other {k k' : String} (h : k' ≠ k) (rest : Path) : tailsOf k [k' :: rest] = [] := by
+  simp [tailsOf, h]
+
+theorem tailsOf_single_short (k k' : String) : tailsOf k [[k']] = [] := by
+  simp [tailsOf]
+
+theorem sx_fresh (keys : List Path) (kids : Kids)
+    (h : ∀ k, k ∈ kids.map (·.1) → keys.contains [k] = false ∧ tailsOf k keys = []) : sx keys kids = kids := by
+  induction kids with
+  | nil => simp [sx]
+  | cons a r ih =>
+    obtain ⟨k, e⟩ := a
+    have hk := h k (by simp)
+    rw [sx_cons_miss e r hk.1, hk.2, sxE_nil, ih (fun k' hk' => h k' (by simp only [List.map_cons, List.mem_cons]; exact Or.inr hk'))]
+
+/-- deleting a one-component key of a dict with unique keys -/
+theorem sx_single_key (k : String) (kids : Kids) (hn : (kids.map (·.1)).Nodup) : sx [[k]] kids = ddel k kids := by
+  induction kids with
+  | nil => simp [sx, ddel]
+  | cons a r ih =>
+    obtain ⟨k', e⟩ := a
+    simp only [List.map_cons, List.nodup_cons] at hn
+    by_cases h : k' = k
+    · subst h
+      rw [sx_cons_hit e r (by simp)]
+      simp only [ddel, if_true]
+      apply sx_fresh
+      intro k2 hk2
+      have hne : k2 ≠ k' := fun e => hn.1 (e ▸ hk2)
+      exact ⟨by simp [hne], tailsOf_single_short _ _⟩
+    · rw [sx_cons_miss e r (by simp [h]), tailsOf_single_short, sxE_nil, ih hn.2]
+      simp [ddel, h]
+
+
+
+theorem ddel_absent (k : String) (kids : Kids) (h : dget k kids = none) : ddel k kids = kids := by
+  induction kids with
+  | nil => simp [ddel]
+  | cons a r ih =>
+    obtain ⟨k', e⟩ := a
+    simp only [dget] at h
+    split at h
+    · simp at h
+    · rename_i hne; simp [ddel, hne, ih h]
+
+theorem dset_same (k : String) (c : Entry) (kids : Kids) (h : dget k kids = some c) : dset k c kids = kids := by
+  induction kids with
+  | nil => simp [dget] at h
+  | cons a r ih =>
+    obtain ⟨k', e⟩ := a
+    simp only [dget] at h
+    split at h
+    · rename_i he; simp at h; subst h; subst he; simp [dset]
+    · rename_i hne; simp [dset, hne, ih h]
+
+/-- a nested key prunes only the entry it starts with -/
+theorem sx_single_deep (k k2 : String) (rest : Path) (kids : Kids) (c : Entry) (h : dget k kids = some c)
+    (hn : (kids.map (·.1)).Nodup) : sx [k :: k2 :: rest] kids = dset k (sxE [k2 :: rest] c) kids := by
+  induction kids with
+  | nil => simp [dget] at h
+  | cons a r ih =>
+    obtain ⟨k', e⟩ := a
+    simp only [List.map_cons, List.nodup_cons] at hn
+    have hc : ([k :: k2 :: rest] : List Path).contains [k'] = false := by simp
+    rw [sx_cons_miss e r hc]
+    simp only [dget] at h
+    split at h
+    · rename_i he; simp at h; subst h; subst he
+      rw [tailsOf_single_same]
+      simp only [dset, if_true]
+      congr 1
+      apply sx_fresh
+      intro k3 hk3
+      have hne : k3 ≠ k' := fun e => hn.1 (e ▸ hk3)
+      exact ⟨by simp, tailsOf_single_other (fun e => hne e.symm) _⟩
+    · rename_i hne
+      rw [tailsOf_single_other (fun e => hne e.symm), sxE_nil, ih h hn.2]
+      simp [dset, hne]
+
+theorem sx_single_deep_absent (k k2 : String) (rest : Path) (kids : Kids) (h : dget k kids = none) :
+    sx [k :: k2 :: rest] kids = kids := by
+  apply sx_fresh
+  intro k' hk'
+  have hne : k ≠ k' := by
+    intro e; subst e
+    have := (dget_none_iff k kids).mp h
+    exact this hk'
+  exact ⟨by simp, tailsOf_single_other hne _⟩
+
+/-- `exclude(p)` of one key = "delete if present", on a dict with unique keys -/
+theorem removeIfPresent_eq_sx (p : Path) (kids : Kids) (hw : WF (.node kids)) (hp : p ≠ []) :
+    removeIfPresent p (.node kids) = .node (sx [p] kids) := by
+  induction p generalizing kids with
+  | nil => exact absurd rfl hp
+  | cons k rest ih =>
+    cases rest with
+    | nil =>
+      rw [sx_single_key k kids hw.kids_nodup]
+      simp only [removeIfPresent, remove]
+      split
+      · simp
+      · rename_i h
+        have : dget k kids = none := by cases hd : dget k kids <;> simp_all
+        simp [ddel_absent k kids this]
+    | cons k2 rest2 =>
+      simp only [removeIfPresent, remove]
+      cases hk : dget k kids with
+      | none => simp [sx_single_deep_absent k k2 rest2 kids hk]
+      | some c =>
+        rw [sx_single_deep k k2 rest2 kids c hk hw.kids_nodup]
+        cases c with
+        | leaf nt v => simp [remove, sxE, dset_same k _ kids hk]
+        | node sub =>
+          have ih' := ih sub (hw.child hk) (by simp)
+          simp only [removeIfPresent] at ih'
+          simp only [sxE]
+          cases hr : remove (k2 :: rest2) (.node sub) with
+          | none =>
+            rw [hr] at ih'; simp at ih'
+            simp [← ih', dset_same k _ kids hk]
+          | some c' =>
+            rw [hr] at ih'; simp at ih'
+            simp [ih']
+
+
+
+theorem tailsOf_append (k : String) (a b : List Path) : tailsOf k (a ++ b) = tailsOf k a ++ tailsOf k b := by
+  simp [tailsOf, List.filterMap_append]
+
+theorem contains_append (a b : List Path) (x : Path) : (a ++ b).contains x = (a.contains x || b.contains x) := by
+  simp [List.contains_eq_mem, List.mem_append]
+
+/-- excluding in two rounds = excluding everything at once -/
+theorem sx_sx (k1 k2 : List Path) (kids : Kids) : sx k2 (sx k1 kids) = sx (k1 ++ k2) kids := by
+  fun_induction sx k1 kids generalizing k2
+  · simp [sx]
+  · rename_i keys k e r hc ih
+    have h12 : (keys ++ k2).contains [k] = true := by rw [contains_append, hc]; rfl
+    rw [sx_cons_hit e r h12]; exact ih k2
+  · rename_i keys k e r hc ih2 ih1
+    have hc' : keys.contains [k] = false := by simpa using hc
+    by_cases h2 : k2.contains [k] = true
+    · have h12 : (keys ++ k2).contains [k] = true := by rw [contains_append, h2]; simp
+      rw [sx_cons_hit _ _ h2, sx_cons_hit e r h12]; exact ih1 k2
+    · have h2' : k2.contains [k] = false := by simpa using h2
+      have h12 : (keys ++ k2).contains [k] = false := by rw [contains_append, hc', h2']; rfl
+      rw [sx_cons_miss _ _ h2', sx_cons_miss e r h12, ih1 k2, tailsOf_append]
+      congr 2
+      cases e with
+      | leaf nt v => simp [sxE]
+      | node sub => simp only [sxE] at ih2 ⊢; rw [ih2]
+
+theorem wf_sx (keys : List Path) (kids : Kids) (hw : WF (.node kids)) : WF (.node (sx keys kids)) := by
+  fun_induction sx keys kids
+  · exact hw
+  · rename_i ih; exact ih hw.tail
+  · rename_i keys k e r hc ih2 ih1
+    have hr := ih1 hw.tail
+    have hfresh := hw.head_fresh
+    refine WF.node _ ?_ ?_
+    · simp only [List.map_cons, List.nodup_cons]
+      refine ⟨?_, hr.kids_nodup⟩
+      intro hm
+      -- keys of sx are among the keys of r
+      have sub : ∀ (ks : List Path) (l : Kids) (x : String), x ∈ (sx ks l).map (·.1) → x ∈ l.map (·.1) := by
+        intro ks l x
+        induction l with
+        | nil => simp [sx]
+        | cons b l ihl =>
+          obtain ⟨kb, eb⟩ := b
+          by_cases hb : ks.contains [kb] = true
+          · rw [sx_cons_hit eb l hb]; intro h; simp only [List.map_cons, List.mem_cons]; exact Or.inr (ihl h)
+          · have hb' : ks.contains [kb] = false := by simpa using hb
+            rw [sx_cons_miss eb l hb']; simp only [List.map_cons, List.mem_cons]
+            rintro (h | h)
+            · exact Or.inl h
+            · exact Or.inr (ihl h)
+      exact (dget_none_iff k r).mp hfresh (sub _ _ _ hm)
+    · intro k' v' hm
+      simp only [List.mem_cons, Prod.mk.injEq] at hm
+      rcases hm with ⟨_, rfl⟩ | hm
+      · cases e with
+        | leaf nt v => exact WF.leaf _ _
+        | node sub => simp only at ih2 ⊢; exact ih2 hw.head
+      · cases hr with
+        | node _ _ hk => exact hk k' v' hm
+
+
+
+/-- the reference `exclude` (delete each listed entry if present, one after the other) is the order-independent
+pruning `sx` -/
+theorem specExclude_eq_sx (keys : List Path) (kids : Kids) (hw : WF (.node kids)) (hk : ∀ p ∈ keys, p ≠ []) :
+    specExclude keys (.node kids) = .node (sx keys kids) := by
+  induction keys generalizing kids with
+  | nil => simp [specExclude, sx_nil]
+  | cons p ks ih =>
+    simp only [specExclude, List.foldl_cons]
+    rw [removeIfPresent_eq_sx p kids hw (hk p (by simp))]
+    have := ih (sx [p] kids) (wf_sx _ _ hw) (fun q hq => hk q (by simp [hq]))
+    simp only [specExclude] at this
+    rw [this, sx_sx]; rfl
+
+/-- `sx` as filter + map -/
+theorem sx_eq_filter_map (keys : List Path) (kids : Kids) :
+    sx keys kids = (kids.filter (fun kv => !keys.contains [kv.1])).map (fun kv => (kv.1, sxE (tailsOf kv.1 keys) kv.2)) := by
+  induction kids with
+  | nil => simp [sx]
+  | cons a r ih =>
+    obtain ⟨k, e⟩ := a
+    by_cases h : keys.contains [k] = true
+    · rw [sx_cons_hit e r h, ih, List.filter_cons]; simp only [h, Bool.not_true, Bool.false_eq_true, if_false]
+    · have h' : keys.contains [k] = false := by simpa using h
+      rw [sx_cons_miss e r h', ih, List.filter_cons]; simp only [h', Bool.not_false, if_true, List.map_cons]
+
+/-- the single-component keys of a key list -/
+def singles (keys : List Path) : List String := keys.filterMap fun p => match p with
+  | [k] => some k
+  | _ => none
+
+theorem mem_singles_iff (keys : List Path) (k : String) : k ∈ singles keys ↔ [k] ∈ keys := by
+  simp only [singles, List.mem_filterMap]
+  constructor
+  · rintro ⟨p, hp, hm⟩
+    match p, hm with
+    | [k'], hm => simp at hm; subst hm; exact hp
+  · intro h; exact ⟨[k], h, rfl⟩
+
+theorem contains_single_iff (keys : List Path) (k : String) : keys.contains [k] = (singles keys).contains k := by
+  have := mem_singles_iff keys k
+  cases h1 : keys.contains [k] <;> cases h2 : (singles keys).contains k <;> simp_all
+
+theorem foldl_ddel_eq_filter (ss : List String) (kids : Kids) (hn : (kids.map (·.1)).Nodup) :
+    ss.foldl (fun c k => ddel k c) kids = kids.filter (fun kv => !ss.contains kv.1) := by
+  induction ss generalizing kids with
+  | nil => simp only [List.foldl_nil, List.contains_nil, Bool.not_false]; exact (List.filter_eq_self.mpr (fun _ _ => rfl)).symm
+  | cons s ss ih =>
+    simp only [List.foldl_cons]
+    rw [ih (ddel s kids) (nodup_ddel s kids hn)]
+    -- ddel of a unique key is a filter
+    have hd : ∀ (l : Kids), (l.map (·.1)).Nodup → ddel s l = l.filter (fun kv => kv.1 != s) := by
+      intro l hl
+      induction l with
+      | nil => simp [ddel]
+      | cons a r ihl =>
+        obtain ⟨k, e⟩ := a
+        simp only [List.map_cons, List.nodup_cons] at hl
+        by_cases hks : k = s
+        · subst hks
+          have : r.filter (fun kv => kv.1 != k) = r := by
+            apply List.filter_eq_self.mpr
+            intro kv hkv; simp; intro e; exact hl.1 (by rw [← e]; exact List.mem_map_of_mem hkv)
+          simp [ddel, this]
+        · simp [ddel, hks, ihl hl.2]
+    rw [hd kids hn, List.filter_filter]
+    congr 1
+    funext kv
+    simp only [List.contains_cons, bne]
+    cases h1 : kv.1 == s <;> cases h2 : ss.contains kv.1 <;> simp [h1, h2]
+
+
+
+/-- the sub-keys collected for `k` -/
+def lookupG (k : String) : List (String × List Path) → List Path
+  | [] => []
+  | (k', l) :: r => if k' = k then l else lookupG k r
+
+theorem lookupG_groupAdd (k : String) (sub : Path) (grp : List (String × List Path)) (k' : String) :
+    lookupG k' (groupAdd k sub grp) = if k' = k then lookupG k grp ++ [sub] else lookupG k' grp := by
+  induction grp with
+  | nil => simp only [groupAdd, lookupG]; split <;> simp_all [eq_comm]
+  | cons a r ih =>
+    obtain ⟨k0, l0⟩ := a
+    simp only [groupAdd]
+    by_cases h0 : k0 = k
+    · subst h0
+      simp only [if_true, lookupG]
+      by_cases h1 : k0 = k'
+      · subst h1; simp
+      · have : ¬ k' = k0 := fun e => h1 e.symm
+        simp [h1, this]
+    · simp only [h0, if_false, lookupG]
+      by_cases h1 : k0 = k'
+      · subst h1; simp [h0]
+      · simp only [h1, if_false, ih]
+
+theorem tailsOf_cons (k : String) (p : Path) (keys : List Path) :
+    tailsOf k (p :: keys) = (match p with
+      | k' :: r => if k' = k ∧ r ≠ [] then [r] else []
+      | [] => []) ++ tailsOf k keys := by
+  simp only [tailsOf, List.filterMap_cons]
+  match p with
+  | [] => rfl
+  | k' :: r => by_cases h : k' = k ∧ r ≠ [] <;> simp [h]
+
+theorem singles_cons (p : Path) (keys : List Path) :
+    singles (p :: keys) = (match p with | [k] => [k] | _ => []) ++ singles keys := by
+  simp only [singles, List.filterMap_cons]
+  match p with
+  | [] => rfl
+  | [k'] => rfl
+  | _ :: _ :: _ => rfl
+
+/-- first loop of `_exclude`: the string keys are popped, the nested keys whose first component is bound in the
+receiver are grouped by that component, in order -/
+theorem excludeScan_spec (orig : Kids) (keys : List Path) (cur : Kids) (grp : List (String × List Path))
+    (hk : ∀ p ∈ keys, p ≠ []) :
+    ∃ grp', excludeScan orig keys cur grp = .ok ((singles keys).foldl (fun c k => ddel k c) cur, grp') ∧
+      ∀ k, lookupG k grp' = lookupG k grp ++ (if (dget k orig).isSome then tailsOf k keys else []) := by
+  induction keys generalizing cur grp with
+  | nil => exact ⟨grp, by simp [excludeScan, singles], by simp [tailsOf]⟩
+  | cons p ps ih =>
+    have hps : ∀ q ∈ ps, q ≠ [] := fun q hq => hk q (by simp [hq])
+    match p, hk p (by simp) with
+    | [k], _ =>
+      obtain ⟨g', h1, h2⟩ := ih (ddel k cur) grp hps
+      refine ⟨g', by simp [excludeScan, h1, singles_cons], fun k' => ?_⟩
+      rw [h2 k', tailsOf_cons]; simp
+    | k :: k2 :: rest, _ =>
+      by_cases hb : (dget k orig).isSome = true
+      · obtain ⟨g', h1, h2⟩ := ih cur (groupAdd k (k2 :: rest) grp) hps
+        refine ⟨g', by simp [excludeScan, hb, h1, singles_cons], fun k' => ?_⟩
+        rw [h2 k', lookupG_groupAdd, tailsOf_cons]
+        by_cases hkk : k' = k
+        · subst hkk; simp [hb]
+        · have : ¬ k = k' := fun e => hkk e.symm
+          simp [hkk, this]
+      · obtain ⟨g', h1, h2⟩ := ih cur grp hps
+        refine ⟨g', by simp [excludeScan, hb, h1, singles_cons], fun k' => ?_⟩
+        rw [h2 k', tailsOf_cons]
+        by_cases hkk : k = k'
+        · subst hkk; simp [hb]
+        · simp [hkk]
+
+
+
+theorem lookupG_absent (k : String) (G : List (String × List Path)) (h : k ∉ G.map (·.1)) : lookupG k G = [] := by
+  induction G with
+  | nil => rfl
+  | cons a r ih =>
+    obtain ⟨k0, l0⟩ := a
+    simp only [List.map_cons, List.mem_cons, not_or] at h
+    have : ¬ k0 = k := fun e => h.1 e.symm
+    simp [lookupG, this, ih h.2]
+
+theorem sxE_leaf (ks : List Path) (nt : Bool) (v : Nat) : sxE ks (.leaf nt v) = .leaf nt v := rfl
+
+theorem map_id_of_mem {α} (f : α → α) (l : List α) (h : ∀ x ∈ l, f x = x) : l.map f = l := by
+  have := List.map_congr_left (f := f) (g := id) (l := l) (by intro x hx; simpa using h x hx)
+  simpa using this
+
+theorem dset_eq_map (k : String) (v : Entry) (cur : Kids) (hn : (cur.map (·.1)).Nodup) (hb : (dget k cur).isSome = true) :
+    dset k v cur = cur.map (fun kv => if kv.1 = k then (k, v) else kv) := by
+  induction cur with
+  | nil => simp [dget] at hb
+  | cons a r ih =>
+    obtain ⟨k0, e0⟩ := a
+    simp only [List.map_cons, List.nodup_cons] at hn
+    by_cases h0 : k0 = k
+    · subst h0
+      simp only [dset, if_true, List.map_cons, List.cons.injEq, true_and]
+      symm; apply map_id_of_mem
+      intro kv hkv
+      have : kv.1 ≠ k0 := fun e => hn.1 (by rw [← e]; exact List.mem_map_of_mem hkv)
+      simp [this]
+    · simp only [dget, h0, if_false] at hb
+      simp [dset, h0, ih hn.2 hb]
+
+/-- second loop of `_exclude` when the recursive call is known to compute `sx` -/
+theorem excludeGroups_spec (f : List Path → Kids → Except Err Kids) (P : List Path → Prop)
+    (hf : ∀ subs sub, P subs → WF (.node sub) → f subs sub = .ok (sx subs sub))
+    (G : List (String × List Path)) (cur : Kids) (hw : WF (.node cur)) (hG : (G.map (·.1)).Nodup)
+    (hP : ∀ k l, (k, l) ∈ G → P l) :
+    excludeGroups f G cur = .ok (cur.map (fun kv => (kv.1, sxE (lookupG kv.1 G) kv.2))) := by
+  induction G generalizing cur with
+  | nil =>
+    simp only [excludeGroups, lookupG, sxE_nil]
+    congr 1; symm; exact map_id_of_mem _ _ (fun _ _ => rfl)
+  | cons a r ih =>
+    obtain ⟨k, subs⟩ := a
+    simp only [List.map_cons, List.nodup_cons] at hG
+    have hPr : ∀ k' l, (k', l) ∈ r → P l := fun k' l h => hP k' l (List.mem_cons_of_mem _ h)
+    have hkr : lookupG k r = [] := lookupG_absent k r hG.1
+    simp only [excludeGroups]
+    -- entries other than `k` see the same group list
+    have other : ∀ kv : String × Entry, kv.1 ≠ k → lookupG kv.1 ((k, subs) :: r) = lookupG kv.1 r := by
+      intro kv hne; have : ¬ k = kv.1 := fun e => hne e.symm
+      simp [lookupG, this]
+    cases hd : dget k cur with
+    | none =>
+      simp only []
+      rw [ih cur hw hG.2 hPr]
+      congr 1
+      apply List.map_congr_left
+      intro kv hkv
+      have hne : kv.1 ≠ k := by
+        intro e; have := (dget_none_iff k cur).mp hd
+        exact this (by rw [← e]; exact List.mem_map_of_mem hkv)
+      rw [other kv hne]
+    | some c =>
+      cases c with
+      | leaf nt v =>
+        simp only []
+        rw [ih cur hw hG.2 hPr]
+        congr 1
+        apply List.map_congr_left
+        intro kv hkv
+        by_cases hne : kv.1 = k
+        · have hkv' : (kv.1, kv.2) ∈ cur := hkv
+          rw [hne] at hkv'
+          have := (mem_kids_iff_dget hw.kids_nodup).mp hkv'
+          rw [hd] at this; simp at this
+          rw [← this, sxE_leaf, sxE_leaf]
+        · rw [other kv hne]
+      | node sub =>
+        simp only []
+        rw [hf subs sub (hP k subs (by simp)) (hw.child hd)]
+        simp only []
+        have hw' : WF (.node (dset k (.node (sx subs sub)) cur)) := hw.dset k (wf_sx _ _ (hw.child hd))
+        rw [ih _ hw' hG.2 hPr, dset_eq_map k _ cur hw.kids_nodup (by simp [hd]), List.map_map]
+        congr 1
+        apply List.map_congr_left
+        intro kv hkv
+        by_cases hne : kv.1 = k
+        · have hkv' : (kv.1, kv.2) ∈ cur := hkv
+          rw [hne] at hkv'
+          have := (mem_kids_iff_dget hw.kids_nodup).mp hkv'
+          rw [hd] at this; simp at this
+          simp only [Function.comp, hne, if_true, lookupG, hkr, sxE_nil]
+          rw [← this]; simp [sxE]
+        · simp only [Function.comp, hne, if_false]; rw [other kv hne]
+
+
+
+theorem gkeys_groupAdd (k : String) (sub : Path) (G : List (String × List Path)) :
+    (groupAdd k sub G).map (·.1) = if k ∈ G.map (·.1) then G.map (·.1) else G.map (·.1) ++ [k] := by
+  induction G with
+  | nil => simp [groupAdd]
+  | cons a r ih =>
+    obtain ⟨k0, l0⟩ := a
+    simp only [groupAdd]
+    by_cases h0 : k0 = k
+    · subst h0; simp
+    · have : ¬ k = k0 := fun e => h0 e.symm
+      simp only [h0, if_false, List.map_cons, ih, List.mem_cons, this, false_or]
+      split <;> simp
+
+theorem nodup_groupAdd (k : String) (sub : Path) (G : List (String × List Path)) (h : (G.map (·.1)).Nodup) :
+    ((groupAdd k sub G).map (·.1)).Nodup := by
+  rw [gkeys_groupAdd]
+  split
+  · exact h
+  · rename_i hk
+    refine List.nodup_append.mpr ⟨h, by simp, ?_⟩
+    intro a ha b hb; simp at hb; subst hb; intro e; subst e; exact hk ha
+
+theorem excludeScan_nodup (orig : Kids) (keys : List Path) (cur : Kids) (grp grp' : List (String × List Path)) (c' : Kids)
+    (h : excludeScan orig keys cur grp = .ok (c', grp')) (hn : (grp.map (·.1)).Nodup) : (grp'.map (·.1)).Nodup := by
+  fun_induction excludeScan orig keys cur grp generalizing c' grp'
+  · simp at h; rw [← h.2]; exact hn
+  · simp at h
+  · rename_i ih; exact ih _ _ h hn
+  · rename_i ih; exact ih _ _ h (nodup_groupAdd _ _ _ hn)
+  · rename_i ih; exact ih _ _ h hn
+
+theorem mem_lookupG {k : String} {l : List Path} {G : List (String × List Path)} (hn : (G.map (·.1)).Nodup)
+    (h : (k, l) ∈ G) : lookupG k G = l := by
+  induction G with
+  | nil => simp at h
+  | cons a r ih =>
+    obtain ⟨k0, l0⟩ := a
+    simp only [List.map_cons, List.nodup_cons] at hn
+    simp only [List.mem_cons, Prod.mk.injEq] at h
+    rcases h with ⟨rfl, rfl⟩ | h
+    · simp [lookupG]
+    · have : ¬ k0 = k := by intro e; subst e; exact hn.1 (List.mem_map_of_mem (f := (·.1)) h)
+      simp [lookupG, this, ih hn.2 h]
+
+theorem mem_tailsOf {k : String} {keys : List Path} {q : Path} (h : q ∈ tailsOf k keys) : q ≠ [] ∧ (k :: q) ∈ keys := by
+  simp only [tailsOf, List.mem_filterMap] at h
+  obtain ⟨p, hp, hm⟩ := h
+  match p, hm with
+  | k' :: r, hm =>
+    by_cases hc : k' = k ∧ r ≠ []
+    · simp [hc] at hm; subst hm; obtain ⟨rfl, h2⟩ := hc; exact ⟨h2, hp⟩
+    · simp [hc] at hm
+
+/-- `_exclude` (grouping by first component, recursion into the nested tensordicts) computes the order-independent
+pruning `sx` -/
+theorem excludeF_spec (fuel : Nat) (keys : List Path) (kids : Kids) (hw : WF (.node kids))
+    (hk : ∀ p ∈ keys, p ≠ [] ∧ p.length ≤ fuel) : excludeF (fuel + 1) keys kids = .ok (sx keys kids) := by
+  induction fuel generalizing keys kids with
+  | zero =>
+    -- every key would be empty
+    cases keys with
+    | nil => simp [excludeF, sx_nil]
+    | cons p ps => have := hk p (by simp); cases p <;> simp at this
+  | succ n ih =>
+    unfold excludeF
+    by_cases hke : keys = []
+    · subst hke; simp [sx_nil]
+    · simp only [hke, if_false]
+      obtain ⟨G, hscan, hlook⟩ := excludeScan_spec kids keys kids [] (fun p hp => (hk p hp).1)
+      have hGn := excludeScan_nodup _ _ _ _ _ _ hscan (by simp)
+      rw [hscan]
+      simp only []
+      have hcur : (singles keys).foldl (fun c k => ddel k c) kids = kids.filter (fun kv => !(singles keys).contains kv.1) :=
+        foldl_ddel_eq_filter _ _ hw.kids_nodup
+      have hwfold : ∀ (ss : List String) (l : Kids), WF (.node l) → WF (.node (ss.foldl (fun c k => ddel k c) l)) := by
+        intro ss
+        induction ss with
+        | nil => intro l hl; exact hl
+        | cons s ss ihs => intro l hl; exact ihs (ddel s l) (hl.ddel s)
+      have hwcur := hwfold (singles keys) kids hw
+      let P : List Path → Prop := fun l => ∀ p ∈ l, p ≠ [] ∧ p.length ≤ n
+      have hP : ∀ k l, (k, l) ∈ G → P l := by
+        intro k l hm p hp
+        have hl := mem_lookupG hGn hm
+        rw [hlook k] at hl
+        simp only [lookupG, List.nil_append] at hl
+        split at hl
+        · rw [← hl] at hp
+          obtain ⟨h1, h2⟩ := mem_tailsOf hp
+          have := (hk _ h2).2; simp at this
+          exact ⟨h1, by omega⟩
+        · rw [← hl] at hp; simp at hp
+      rw [excludeGroups_spec (excludeF (n + 1)) P (fun subs sub hs hws => ih subs sub hws hs) G _ hwcur hGn hP]
+      congr 1
+      rw [sx_eq_filter_map, hcur]
+      have hf : (fun kv : String × Entry => !(singles keys).contains kv.1) = (fun kv => !keys.contains [kv.1]) := by
+        funext kv; rw [contains_single_iff]
+      rw [hf]
+      apply List.map_congr_left
+      intro kv hkv
+      have hmem : kv ∈ kids := (List.mem_filter.mp hkv).1
+      have hb : (dget kv.1 kids).isSome = true := by
+        rw [dget_isSome_iff_mem]; exact List.mem_map_of_mem hmem
+      rw [hlook kv.1]; simp [lookupG, hb]
+
+
+theorem foldl_max_ge (l : List Path) (a : Nat) :
+    a ≤ l.foldl (fun m p => max m p.length) a ∧ ∀ p ∈ l, p.length ≤ l.foldl (fun m p => max m p.length) a := by
+  induction l generalizing a with
+  | nil => simp
+  | cons q qs ih =>
+    simp only [List.foldl_cons, List.mem_cons]
+    obtain ⟨h1, h2⟩ := ih (max a q.length)
+    refine ⟨by omega, ?_⟩
+    rintro p (rfl | hp)
+    · omega
+    · exact h2 p hp
+
+theorem le_maxLen {p : Path} {keys : List Path} (h : p ∈ keys) : p.length ≤ maxLen keys :=
+  (foldl_max_ge keys 0).2 p h
+
+/-- `exclude(*keys)` = delete every listed entry if present (`specExclude`), for any order and any overlap of keys -/
+theorem excludeT_refines (keys : List Path) (inplace : Bool) (kids : Kids) (hw : WF (.node kids))
+    (hk : ∀ p ∈ keys, p ≠ []) :
+    excludeT keys inplace (.node kids) =
+      (if inplace then (specExclude keys (.node kids), .ok) else (.node kids, .res [specExclude keys (.node kids)])) := by
+  simp only [excludeT]
+  rw [excludeF_spec (maxLen keys) keys kids hw (fun p hp => ⟨hk p hp, le_maxLen hp⟩), specExclude_eq_sx keys kids hw hk]
+
+/-! ### update -/
+
+/-- apply a result obtained on the nested dict bound to `k` to the enclosing dict -/
+def liftAt (k : String) (kids : Kids) (r : Entry × Except Err Unit) : Entry × Except Err Unit :=
+  (.node (dset k r.1 kids), r.2)
+
+theorem lookup_cons_some {k : String} {kids : Kids} {c : Entry} (h : dget k kids = some c) (q : Path) :
+    lookup (k :: q) (.node kids) = lookup q c := by
+  rw [lookup_cons_node, h]; rfl
+
+theorem insert_cons_node {k : String} {kids sub : Kids} (h : dget k kids = some (.node sub)) (q : Path) (hq : q ≠ [])
+    (v : Entry) : insert (k :: q) v (.node kids) = (insert q v (.node sub)).map (fun c => .node (dset k c kids)) := by
+  match q, hq with
+  | k2 :: rest, _ => simp [insert, h]
+
+theorem writeAt_lift {k : String} {kids sub : Kids} (h : dget k kids = some (.node sub)) (q : Path) (hq : q ≠ [])
+    (v : Entry) : writeAt (k :: q) v (.node kids) = liftAt k kids (writeAt q v (.node sub)) := by
+  simp only [writeAt, insert_cons_node h q hq]
+  cases insert q v (.node sub) with
+  | none => simp [liftAt, dset_same k _ kids h]
+  | some c => simp [liftAt]
+
+theorem writeAt_node (q : Path) (v : Entry) (s : Kids) : ∃ s', (writeAt q v (.node s)).1 = .node s' := by
+  simp only [writeAt]
+  cases h : insert q v (.node s) with
+  | none => exact ⟨s, rfl⟩
+  | some t' => obtain ⟨s', rfl⟩ := insert_shape h; exact ⟨s', rfl⟩
+
+/-- the nested-or-written first step for one dict-valued payload entry -/
+theorem step_node (q : Path) (pv : Kids) (t t' : Entry) (o : Except Err Unit) (ht : ∃ s, t = .node s)
+    (hm : ∃ s', (mergeKids q pv t).1 = .node s')
+    (h : (match lookup q t with
+      | some (.node _) => mergeKids q pv t
+      | _ => writeAt q (.node pv) t) = (t', o)) : ∃ s', t' = .node s' := by
+  obtain ⟨s, rfl⟩ := ht
+  split at h
+  · rw [h] at hm; exact hm
+  · have := writeAt_node q (.node pv) s; rw [h] at this; exact this
+
+theorem mergeKids_node (q : Path) (pv : Kids) (t : Entry) (ht : ∃ s, t = .node s) : ∃ s', (mergeKids q pv t).1 = .node s' := by
+  fun_induction mergeKids q pv t
+  · exact ht
+  · rename_i p k' nt x r t t' e hx
+    obtain ⟨s, rfl⟩ := ht; have := writeAt_node (p ++ [k']) (.leaf nt x) s; rw [hx] at this; exact this
+  · rename_i p k' nt x r t t' hx ih
+    obtain ⟨s, rfl⟩ := ht; have := writeAt_node (p ++ [k']) (.leaf nt x) s; rw [hx] at this; exact ih this
+  · rename_i hx ih; exact step_node _ _ _ _ _ ht (ih ht) hx
+  · rename_i hx ih2 ih1; exact ih1 (step_node _ _ _ _ _ ht (ih2 ht) hx)
+
+/-- merging below `k :: q` in a dict = merging below `q` in the nested dict bound to `k` -/
+theorem mergeKids_lift (q : Path) (pv : Kids) (t : Entry) (k : String) (kids sub : Kids)
+    (h : dget k kids = some (.node sub)) (ht : t = .node sub) :
+    mergeKids (k :: q) pv (.node kids) = (.node (dset k (mergeKids q pv t).1 kids), (mergeKids q pv t).2) := by
+  fun_induction mergeKids q pv t generalizing kids sub
+  · subst ht; simp [mergeKids, dset_same k _ kids h]
+  · -- leaf value, refused
+    rename_i p k' nt x r t t' e hx
+    subst ht
+    have hw := writeAt_lift h (p ++ [k']) (by simp) (.leaf nt x)
+    rw [hx] at hw
+    simp only [mergeKids, List.cons_append, hw, liftAt]
+  · -- leaf value, written
+    rename_i p k' nt x r t t' hx ih
+    subst ht
+    have hw := writeAt_lift h (p ++ [k']) (by simp) (.leaf nt x)
+    rw [hx] at hw
+    obtain ⟨s', hs'⟩ := writeAt_node (p ++ [k']) (.leaf nt x) sub
+    rw [hx] at hs'; simp only at hs'
+    simp only [mergeKids, List.cons_append, hw, liftAt]
+    rw [ih (dset k t' kids) s' (by rw [dget_dset_same, hs']) hs', dset_dset_same]
+  · -- dict value, refused
+    rename_i p k' pv r t t' e hx ih
+    subst ht
+    have hm := ih kids sub h rfl
+    have hw := writeAt_lift h (p ++ [k']) (by simp) (.node pv)
+    cases hl : lookup (p ++ [k']) (.node sub) with
+    | none =>
+      simp only [hl] at hx; rw [hx] at hw
+      simp only [mergeKids, List.cons_append, lookup_cons_some h, hl, hw, liftAt]
+    | some c =>
+      cases c with
+      | leaf nt x =>
+        simp only [hl] at hx; rw [hx] at hw
+        simp only [mergeKids, List.cons_append, lookup_cons_some h, hl, hw, liftAt]
+      | node s2 =>
+        simp only [hl] at hx; rw [hx] at hm
+        simp only [mergeKids, List.cons_append, lookup_cons_some h, hl, hm]
+  · -- dict value, merged or written
+    rename_i p k' pv r t t' hx ih2 ih1
+    subst ht
+    have hm := ih2 kids sub h rfl
+    have hw := writeAt_lift h (p ++ [k']) (by simp) (.node pv)
+    obtain ⟨s', hs'⟩ := step_node (p ++ [k']) pv (.node sub) t' _ ⟨sub, rfl⟩ (mergeKids_node _ _ _ ⟨sub, rfl⟩) hx
+    have hrest := ih1 (dset k t' kids) s' (by rw [dget_dset_same, hs']) hs'
+    rw [dset_dset_same] at hrest
+    cases hl : lookup (p ++ [k']) (.node sub) with
+    | none =>
+      simp only [hl] at hx; rw [hx] at hw
+      simp only [mergeKids, List.cons_append, lookup_cons_some h, hl, hw, liftAt, hrest]
+    | some c =>
+      cases c with
+      | leaf nt x =>
+        simp only [hl] at hx; rw [hx] at hw
+        simp only [mergeKids, List.cons_append, lookup_cons_some h, hl, hw, liftAt, hrest]
+      | node s2 =>
+        simp only [hl] at hx; rw [hx] at hm
+        simp only [mergeKids, List.cons_append, lookup_cons_some h, hl, hm, hrest]
+
+
+
+/-- the items `{k: v for k, v in payload.items()}` of a nested payload, replayed at the root, are the merge of the payload -/
+theorem specUpdate_kids (pv : Kids) (t : Entry) :
+    specUpdate (pv.map (fun kv => ([kv.1], kv.2))) t = mergeKids [] pv t := by
+  induction pv generalizing t with
+  | nil => simp [specUpdate, mergeKids]
+  | cons a r ih =>
+    obtain ⟨k, v⟩ := a
+    cases v with
+    | leaf nt x =>
+      simp only [List.map_cons, specUpdate, mergeKids, mergeTop, List.nil_append, List.cons_ne_nil, if_false]
+      cases writeAt [k] (.leaf nt x) t with
+      | mk t' o => cases o <;> simp [ih]
+    | node pv' =>
+      simp only [List.map_cons, specUpdate, mergeKids, mergeTop, List.nil_append, List.cons_ne_nil, if_false]
+      generalize (match lookup [k] t with
+        | some (.node _) => mergeKids [k] pv' t
+        | _ => writeAt [k] (.node pv') t) = res
+      obtain ⟨t', o⟩ := res
+      cases o <;> simp [ih]
+
+theorem mergeTop_lift (q : Path) (hq : q ≠ []) (v : Entry) (k : String) (kids sub : Kids)
+    (h : dget k kids = some (.node sub)) :
+    mergeTop (k :: q) v (.node kids) = (.node (dset k (mergeTop q v (.node sub)).1 kids), (mergeTop q v (.node sub)).2) := by
+  cases v with
+  | leaf nt x => simp only [mergeTop]; rw [writeAt_lift h q hq]; rfl
+  | node pv =>
+    simp only [mergeTop, lookup_cons_some h]
+    cases hl : lookup q (.node sub) with
+    | none => simp only []; rw [writeAt_lift h q hq]; rfl
+    | some c =>
+      cases c with
+      | leaf nt x => simp only []; rw [writeAt_lift h q hq]; rfl
+      | node s2 => simp only []; exact mergeKids_lift q pv (.node sub) k kids sub h rfl
+
+theorem mergeTop_node (q : Path) (v : Entry) (s : Kids) : ∃ s', (mergeTop q v (.node s)).1 = .node s' := by
+  cases v with
+  | leaf nt x => exact writeAt_node _ _ _
+  | node pv =>
+    simp only [mergeTop]
+    split
+    · exact mergeKids_node _ _ _ ⟨s, rfl⟩
+    · exact writeAt_node _ _ _
+
+
+
+theorem payloadW_node (pv : Kids) : payloadW (.node pv) = payloadW.go pv := rfl
+
+theorem updMeasure_kids (pv : Kids) : updMeasure (pv.map (fun kv => ([kv.1], kv.2))) = payloadW.go pv := by
+  induction pv with
+  | nil => simp [updMeasure, payloadW.go]
+  | cons a r ih =>
+    obtain ⟨k, v⟩ := a
+    cases v with
+    | leaf nt x => simp only [List.map_cons, updMeasure, ih, List.length_singleton, payloadW, payloadW.go]
+    | node sub => simp only [List.map_cons, updMeasure, ih, List.length_singleton, payloadW, payloadW.go]
+
+/-- what `_set_tuple` does to the state of a bulk operation -/
+theorem direct_eq (p : Path) (v : Entry) (kids : Kids) :
+    (match setTuple p v (.node kids) with
+      | .error _ => (Entry.node kids, false)
+      | .ok t' => (t', true)) = ((writeAt p v (.node kids)).1, okU (writeAt p v (.node kids)).2) := by
+  simp only [writeAt]
+  cases hi : insert p v (.node kids) with
+  | none => obtain ⟨e, he⟩ := setTuple_error_of_insert hi; simp [he, okU]
+  | some t' => simp [setTuple_of_insert hi, okU]
+
+/-- the `_set_tuple` route of one item, followed by the rest -/
+theorem direct_step (n : Nat) (p : Path) (v : Entry) (rest : List (Path × Entry)) (kids : Kids)
+    (ih : ∀ kids', (updateF n rest (.node kids')).1 = (specUpdate rest (.node kids')).1 ∧
+      okU (updateF n rest (.node kids')).2 = okU (specUpdate rest (.node kids')).2) :
+    let code : Entry × Except Err Unit := match setTuple p v (.node kids) with
+      | .error e => (.node kids, .error e)
+      | .ok t' => updateF n rest t'
+    let spec : Entry × Except Err Unit := match writeAt p v (.node kids) with
+      | (t', .error e) => (t', .error e)
+      | (t', .ok ()) => specUpdate rest t'
+    code.1 = spec.1 ∧ okU code.2 = okU spec.2 := by
+  simp only [writeAt]
+  cases hi : insert p v (.node kids) with
+  | none => obtain ⟨e, he⟩ := setTuple_error_of_insert hi; simp [he, okU]
+  | some t' =>
+    obtain ⟨kids', rfl⟩ := insert_shape hi
+    simp only [setTuple_of_insert hi]
+    exact ih kids'
+
+/-- `update(payload)`: the recursive descent into the nested tensordicts equals the merge on the plain dict -/
+theorem updateF_spec (n : Nat) (items : List (Path × Entry)) (kids : Kids) (hm : updMeasure items ≤ n) :
+    (updateF n items (.node kids)).1 = (specUpdate items (.node kids)).1 ∧
+    okU (updateF n items (.node kids)).2 = okU (specUpdate items (.node kids)).2 := by
+  induction n generalizing items kids with
+  | zero =>
+    cases items with
+    | nil => simp [updateF, specUpdate]
+    | cons a r => obtain ⟨p, v⟩ := a; simp [updMeasure] at hm
+  | succ n ih =>
+    cases items with
+    | nil => simp [updateF, specUpdate]
+    | cons a rest =>
+      obtain ⟨p, v⟩ := a
+      simp only [updMeasure] at hm
+      cases p with
+      | nil => simp [updateF, specUpdate, okU]
+      | cons k sub =>
+        have hrest : updMeasure rest ≤ n := by omega
+        have ihrest := fun kids' => ih rest kids' hrest
+        -- the `_set_tuple` route
+        have direct : ∀ (hne : ¬ (∃ tsub pv, dget k kids = some (.node tsub) ∧ v = .node pv)),
+            mergeTop (k :: sub) v (.node kids) = writeAt (k :: sub) v (.node kids) := by
+          intro hne
+          cases v with
+          | leaf nt x => rfl
+          | node pv =>
+            simp only [mergeTop]
+            cases hl : lookup (k :: sub) (.node kids) with
+            | none => rfl
+            | some c =>
+              cases c with
+              | leaf nt x => rfl
+              | node s2 =>
+                exfalso
+                rw [lookup_cons_node] at hl
+                cases hd : dget k kids with
+                | none => simp [hd] at hl
+                | some c' =>
+                  cases c' with
+                  | leaf nt x => cases sub <;> simp [hd, lookup] at hl
+                  | node tsub => exact hne ⟨tsub, pv, hd, rfl⟩
+        by_cases hnest : ∃ tsub pv, dget k kids = some (.node tsub) ∧ v = .node pv
+        · obtain ⟨tsub, pv, hd, rfl⟩ := hnest
+          -- target.update(...)
+          have hinner : updMeasure (if sub = [] then pv.map (fun kv => ([kv.1], kv.2)) else [(sub, Entry.node pv)]) ≤ n := by
+            split
+            · rename_i hs; subst hs; rw [updMeasure_kids]; simp [payloadW_node] at hm; omega
+            · simp [updMeasure] at hm ⊢; omega
+          have hIH := ih _ tsub hinner
+          -- the replay of this item on the enclosing dict is the replay of the inner items on the nested dict
+          have hlift : mergeTop (k :: sub) (.node pv) (.node kids) =
+              (.node (dset k (specUpdate (if sub = [] then pv.map (fun kv => ([kv.1], kv.2)) else [(sub, Entry.node pv)]) (.node tsub)).1 kids),
+               (specUpdate (if sub = [] then pv.map (fun kv => ([kv.1], kv.2)) else [(sub, Entry.node pv)]) (.node tsub)).2) := by
+            by_cases hs : sub = []
+            · subst hs
+              have hl : lookup [k] (.node kids) = some (.node tsub) := by rw [lookup_cons_some hd]; rfl
+              simp only [if_true, specUpdate_kids, mergeTop, hl]
+              exact mergeKids_lift [] pv (.node tsub) k kids tsub hd rfl
+            · simp only [hs, if_false]
+              have : specUpdate [(sub, Entry.node pv)] (.node tsub) = mergeTop sub (.node pv) (.node tsub) := by
+                simp only [specUpdate, hs, if_false]
+                cases mergeTop sub (.node pv) (.node tsub) with
+                | mk t' o => cases o <;> rfl
+              rw [this]
+              exact mergeTop_lift sub hs (.node pv) k kids tsub hd
+          simp only [updateF, hd, specUpdate, List.cons_ne_nil, if_false, hlift]
+          cases hc : updateF n (if sub = [] then pv.map (fun kv => ([kv.1], kv.2)) else [(sub, Entry.node pv)]) (.node tsub) with
+          | mk c o =>
+            cases hs2 : specUpdate (if sub = [] then pv.map (fun kv => ([kv.1], kv.2)) else [(sub, Entry.node pv)]) (.node tsub) with
+            | mk c2 o2 =>
+              rw [hc, hs2] at hIH
+              obtain ⟨h1, h2⟩ := hIH
+              simp only at h1 h2; subst h1
+              cases o <;> cases o2 <;> simp [okU] at h2 ⊢
+              exact ihrest _
+        · -- `_set_tuple`
+          have hcode : updateF (n + 1) ((k :: sub, v) :: rest) (.node kids) =
+              (match setTuple (k :: sub) v (.node kids) with
+                | .error e => (.node kids, .error e)
+                | .ok t' => updateF n rest t') := by
+            cases hd : dget k kids with
+            | none => cases v <;> simp only [updateF, hd] <;> rfl
+            | some c =>
+              cases c with
+              | leaf nt x => cases v <;> simp only [updateF, hd] <;> rfl
+              | node tsub =>
+                cases v with
+                | leaf nt x => simp only [updateF, hd]; rfl
+                | node pv => exact absurd ⟨tsub, pv, hd, rfl⟩ hnest
+          rw [hcode]
+          simp only [specUpdate, List.cons_ne_nil, if_false, direct hnest]
+          exact direct_step n (k :: sub) v rest kids ihrest
+
+
+
+theorem writeAt_wf (q : Path) (v t : Entry) (hw : WF t) (hv : WF v) : WF (writeAt q v t).1 := by
+  simp only [writeAt]
+  cases h : insert q v t with
+  | none => exact hw
+  | some t' => exact wf_insert q v t t' hw hv h
+
+theorem WF.kid {kids : Kids} (h : WF (.node kids)) {k : String} {v : Entry} (hm : (k, v) ∈ kids) : WF v := by
+  cases h with
+  | node _ _ hk => exact hk k v hm
+
+theorem mergeKids_wf (q : Path) (pv : Kids) (t : Entry) (hw : WF t) (hp : WF (.node pv)) : WF (mergeKids q pv t).1 := by
+  fun_induction mergeKids q pv t
+  · exact hw
+  · rename_i p k' nt x r t t' e hx
+    have := writeAt_wf (p ++ [k']) (.leaf nt x) t hw (WF.leaf _ _); rw [hx] at this; exact this
+  · rename_i p k' nt x r t t' hx ih
+    have := writeAt_wf (p ++ [k']) (.leaf nt x) t hw (WF.leaf _ _); rw [hx] at this
+    exact ih this hp.tail
+  · rename_i p k' pv r t t' e hx ih
+    have hpv : WF (.node pv) := hp.head
+    split at hx
+    · have := ih hw hpv; rw [hx] at this; exact this
+    · have := writeAt_wf (p ++ [k']) (.node pv) t hw hpv; rw [hx] at this; exact this
+  · rename_i p k' pv r t t' hx ih2 ih1
+    have hpv : WF (.node pv) := hp.head
+    refine ih1 ?_ hp.tail
+    split at hx
+    · have := ih2 hw hpv; rw [hx] at this; exact this
+    · have := writeAt_wf (p ++ [k']) (.node pv) t hw hpv; rw [hx] at this; exact this
+
+theorem mergeTop_wf (q : Path) (v t : Entry) (hw : WF t) (hv : WF v) : WF (mergeTop q v t).1 := by
+  cases v with
+  | leaf nt x => exact writeAt_wf _ _ _ hw hv
+  | node pv =>
+    simp only [mergeTop]
+    split
+    · exact mergeKids_wf _ _ _ hw hv
+    · exact writeAt_wf _ _ _ hw hv
+
+/-- the replay of `update` keeps a well-formed node -/
+theorem specUpdate_good (items : List (Path × Entry)) (kids : Kids) (hw : WF (.node kids)) (hv : ∀ kv ∈ items, WF kv.2) :
+    ∃ kids', (specUpdate items (.node kids)).1 = .node kids' ∧ WF (.node kids') := by
+  induction items generalizing kids with
+  | nil => exact ⟨kids, rfl, hw⟩
+  | cons a r ih =>
+    obtain ⟨p, v⟩ := a
+    simp only [specUpdate]
+    by_cases hp : p = []
+    · simp [hp]; exact hw
+    · simp only [hp, if_false]
+      obtain ⟨s', hs'⟩ := mergeTop_node p v kids
+      have hwm := mergeTop_wf p v (.node kids) hw (hv (p, v) (by simp))
+      cases hm : mergeTop p v (.node kids) with
+      | mk t' o =>
+        rw [hm] at hs' hwm; simp only at hs' hwm; subst hs'
+        cases o with
+        | error e => exact ⟨s', rfl, hwm⟩
+        | ok u => cases u; exact ih s' hwm (fun kv hkv => hv kv (by simp [hkv]))
 
 
 end TdVerif.C04
